@@ -38,6 +38,25 @@ EXTRA = [bytes([c]) for c in b"|&;<>(){}?+[]=%!^,:@-_./0123456789AFafxuntrb"] + 
          "\u02dc".encode(), b"\\x", b"\\'", b"$'", b"''"]
 
 
+# second alphabet: characters that matter for option-like (`-name=value`) and assignment-like (`NAME=~/x`,
+# `a=b:~c`) words, where bash expands a tilde after `=` / `:` and a `#` / `~` is special only in some positions
+ALPHA2 = [b"a", b"=", b":", b"~", b"#", b"-", b" ", b"$", b"'", b"/"]
+
+
+def rand_wordlike(rng):
+    """option-like and assignment-like arguments with special characters before and after the `=`"""
+    def piece(n):
+        return b"".join(rng.choice(ALPHA2 + ALPHA + [b"b", b"x", b"_", b"1", b".", b"*", b"%", b"+", b"dir"]) for _ in range(rng.below(n + 1)))
+    k = rng.below(4)
+    if k == 0:
+        return rng.choice([b"-", b"--"]) + piece(4) + b"=" + piece(4)
+    if k == 1:
+        return rng.choice([b"a", b"NAME", b"_x1", b"a b", b"-n"]) + b"=" + rng.choice([b"~", b"~/x", b"b:~c", b"~root", b":~", b"#", b"a#b", b"~+"]) + piece(2)
+    if k == 2:
+        return piece(3) + rng.choice([b"#", b"~", b"=", b":"]) + piece(3)
+    return rng.choice([b"-", b"--"]) + piece(3)
+
+
 def field(b):
     return ".".join(str(x) for x in b) if b else "-"
 
@@ -325,7 +344,11 @@ def rand_shell_fragment(rng):
 # ---------------------------------------------------------------------------------------------
 
 def run(ctx):
-    ctx.rule = ("argument lists for arg::join/quote/split: all strings of <= %d symbols over the 20-symbol alphabet "
+    ctx.rule = ("three quoting entry points (arg::join = Arg::quote per argument, the method Arg::quote alone, Path::quote): "
+                "all strings of <= 4 (thorough 5) symbols over the word alphabet {a = : ~ # - SP $ ' /} and random option-like / "
+                "assignment-like words (-name=value, NAME=~/x, a=b:~c with special characters on both sides of the =), all through "
+                "arg::split and real bash with HOME=/tildehome; "
+                "argument lists for arg::join/quote/split: all strings of <= %d symbols over the 20-symbol alphabet "
                 "{a SP TAB LF CR ' \" \\ $ ` ~ # * U+017C U+20AC U+1F600 U+00A0 U+FFFD xFF x7F}; all pairs of strings of <= 2 symbols; "
                 "%s random lists of 1-4 strings of <= 200 symbols (alphabet, SPECIAL_CHARS, random bytes 1..255, random scalars, "
                 "truncated/overlong/surrogate UTF-8); random &str inputs of split and from_stfu8; random byte strings for the UTF-8 model; "
@@ -360,15 +383,29 @@ def run(ctx):
     def add_qs(args):
         cases.append(("qs " + " ".join(field(a) for a in args), list(args)))
 
+    force_bash = set()     # lines whose quoted form always goes through real bash
+
+    def add_aqs(a):
+        cases.append(("aqs " + field(a), [a]))
+
     if lines is not None:
         for l in lines:
             t = l.split()
-            cases.append((l, [unfield(x) for x in t[1:]] if t and t[0] == "qs" else None))
+            cases.append((l, [unfield(x) for x in t[1:]] if t and t[0] in ("qs", "aqs") else None))
     else:
         rng = ctx.rng
         singles = strings_upto(ctx.pick(3, 4))
         for s in singles:
             add_qs([s])
+            add_aqs(s)
+        for s in strings_upto(ctx.pick(4, 5), ALPHA2):
+            add_qs([s])
+            add_aqs(s)
+        for _ in range(ctx.pick(3000, 60000)):
+            w = rand_wordlike(rng).replace(b"\0", b"\x01") or b"-"
+            add_aqs(w)
+            add_qs([w] if rng.chance(1, 2) else [rand_string(rng, 3), w, rand_wordlike(rng).replace(b"\0", b"\x01") or b"a"])
+            force_bash.add(cases[-1][0])
         upto2 = strings_upto(2)
         for a in upto2:
             for b in upto2:
@@ -454,8 +491,10 @@ def run(ctx):
     if lines is None:
         pool = [c for c, i in zip(cases, impl) if c[1] and all(a and b"\0" not in a for a in c[1])]
         pool_i = {c[0]: i for c, i in zip(cases, impl)}
-        chosen = [c for c in pool if len(c[1]) == 1 and len(c[1][0]) <= 12 and len(symbols_of(c[1][0])) <= 3]
-        rest = [c for c in pool if not (len(c[1]) == 1 and len(c[1][0]) <= 12 and len(symbols_of(c[1][0])) <= 3)]
+        def short(c):
+            return len(c[1]) == 1 and len(c[1][0]) <= 20 and len(symbols_of(c[1][0])) <= 5
+        chosen = [c for c in pool if (short(c) and c[0].startswith("qs ")) or c[0] in force_bash]
+        rest = [c for c in pool if not short(c) and c[0] not in force_bash]
         r2 = ctx.rng.fork()
         extra_n = ctx.pick(6000, 200000)
         step = max(1, len(rest) // extra_n)
@@ -522,7 +561,8 @@ def run(ctx):
     #     quote of the NORMAL FORM, and split / real bash must give back the normal form.
     if lines is None:
         r4 = ctx.rng.fork()
-        pq_in = [b""] + strings_upto(ctx.pick(3, 4))
+        pq_in = [b""] + strings_upto(ctx.pick(3, 4)) + strings_upto(ctx.pick(3, 4), ALPHA2)
+        pq_in += [(rand_wordlike(r4).replace(b"\0", b"\x01") or b"-") for _ in range(ctx.pick(1500, 30000))]
         for _ in range(ctx.pick(3000, 60000)):
             parts = [rand_string(r4, r4.choice([1, 2, 4, 20])).replace(b"/", b"_") for _ in range(1 + r4.below(3))]
             a = r4.choice([b"", b"/", b"./", b"../"]) + r4.choice([b"/", b"//", b"/./", b"/../"]).join(parts) + r4.choice([b"", b"", b"/", b"/."])
